@@ -34,8 +34,8 @@ Definition kid_name_ok (k : node) : bool :=
 Lemma kid_key_skipk k : kid_name_ok k = true -> skipk o (kkey k) = false.
 Proof.
   destruct k as [nm a text kids| | |]; intros H; try reflexivity.
-  apply name_ok_keys in H. destruct H as (_ & _ & H2 & H3 & _).
-  unfold skipk. cbn [kid_key]. rewrite H2, H3. reflexivity.
+  apply name_ok_keys in H. destruct H as (_ & H1 & H2 & H3 & _).
+  unfold skipk. cbn [kid_key]. rewrite H1, H2, H3. reflexivity.
 Qed.
 
 (* the three keys the encoder's shape tests look at are never the key of a child *)
@@ -211,7 +211,7 @@ Lemma senc_map key val :
     let general :=
       bind (seq_sort o (fun t : str * value * res (list sitem) => snd (fst t)) (kid_triples o val)) (fun sorted =>
       bind (sconcat (map snd sorted)) (fun body =>
-        Ok (SI (IOpen key attrs) :: body ++ [SI (IClose key)]))) in
+        Ok (SI (IOpen key attrs) :: lead_text o val ++ body ++ [SI (IClose key)]))) in
     match lookup (textK o) val with
     | Some v =>
         if Nat.eqb n (if haveAttrs then 3 else 2) && seqOK then
@@ -257,19 +257,21 @@ Qed.
 Lemma senc_general key val ha attrs E :
   is_special_key o key = false ->
   sattrs o val = Ok (ha, attrs) ->
-  lookup (textK o) val = None ->
-  Nat.eqb (length val) (if ha then 2 else 1) && has_key (seqK o) val = false ->
+  match lookup (textK o) val with
+  | Some _ => Nat.eqb (length val) (if ha then 3 else 2) && has_key (seqK o) val = false
+  | None => Nat.eqb (length val) (if ha then 2 else 1) && has_key (seqK o) val = false
+  end ->
   Permutation (unroll o val) E ->
   StronglySorted (klt tkey) (map (triple o) E) ->
-  forallb (fun t : str * value * res (list sitem) => is_map (snd (fst t))) (map (triple o) E) = true ->
   senc o (VMap val) key =
-  bind (sconcat (map snd (map (triple o) E))) (fun body => Ok (SI (IOpen key attrs) :: body ++ [SI (IClose key)])).
+  bind (sconcat (map snd (map (triple o) E)))
+       (fun body => Ok (SI (IOpen key attrs) :: lead_text o val ++ body ++ [SI (IClose key)])).
 Proof.
-  intros Hs Ha Ht Hn P S M.
-  rewrite (senc_map key val Hs), Ha. cbn [bind fst snd]. rewrite Ht, Hn.
+  intros Hs Ha Hn P S.
+  rewrite (senc_map key val Hs), Ha. cbn [bind fst snd].
   rewrite kid_triples_unroll.
-  rewrite (seq_sort_recovers o _ _ (map (triple o) E) (Permutation_map _ P) S M).
-  reflexivity.
+  rewrite (seq_sort_recovers o _ _ (map (triple o) E) (Permutation_map _ P) S).
+  destruct (lookup (textK o) val); rewrite Hn; reflexivity.
 Qed.
 
 (* ---------------- the items the round trip must produce ---------------- *)
@@ -277,14 +279,17 @@ Fixpoint items_of (root : bool) (d : node) : list sitem :=
   match d with
   | NElem nm a text kids =>
       let key := xfull nm in
-      match trim trim_all text with
-      | c :: x => [SI (IOpen key (aitems a)); SI (IText (esc o (c :: x))); SI (IClose key)]
+      match kids with
       | [] =>
-          match kids with
+          match trim trim_all text with
+          | c :: x => [SI (IOpen key (aitems a)); SI (IText (esc o (c :: x))); SI (IClose key)]
           | [] => if root && has_attrs a then [SI (IOpen key (aitems a)); SI (IClose key)]
                   else [SI (IEmpty key (aitems a))]
-          | _ => SI (IOpen key (aitems a)) :: flat_map (items_of false) kids ++ [SI (IClose key)]
           end
+      | _ =>
+          SI (IOpen key (aitems a))
+          :: (match trim trim_all text with c :: x => [SI (IText (esc o (c :: x)))] | [] => [] end)
+          ++ flat_map (items_of false) kids ++ [SI (IClose key)]
       end
   | NComment x => [SComment x]
   | NDirective x => [SDirective x]
@@ -292,12 +297,12 @@ Fixpoint items_of (root : bool) (d : node) : list sitem :=
   end.
 
 Definition kid_enc (k : node) : Prop :=
-  node_ok o true k = true -> forall sq, senc o (injv (nval k) sq) (kkey k) = Ok (items_of false k).
+  node_ok o k = true -> forall sq, senc o (injv (nval k) sq) (kkey k) = Ok (items_of false k).
 Definition root_enc (d : node) : Prop :=
-  node_ok o true d = true -> is_elem d = true -> senc o (nval d) (kkey d) = Ok (items_of true d).
+  node_ok o d = true -> is_elem d = true -> senc o (nval d) (kkey d) = Ok (items_of true d).
 
 Lemma sconcat_kids kids : forall sq,
-  Forall kid_enc kids -> forallb (node_ok o true) kids = true ->
+  Forall kid_enc kids -> forallb (node_ok o) kids = true ->
   sconcat (map snd (map (triple o) (Es kids sq))) = Ok (flat_map (items_of false) kids).
 Proof.
   induction kids as [|k t IH]; intros sq HF Hok; [reflexivity|].
@@ -307,26 +312,24 @@ Proof.
   rewrite (Hk Ok1 sq). cbn [bind]. rewrite (IH _ Ht Ok2). reflexivity.
 Qed.
 
-Lemma node_ok_kid_name k : node_ok o true k = true -> kid_name_ok k = true.
+Lemma node_ok_kid_name k : node_ok o k = true -> kid_name_ok k = true.
 Proof.
   destruct k as [nm a text kids| | |]; intros H; try reflexivity.
   cbn [node_ok] in H. repeat (apply andb_true_iff in H; destruct H as [H ?]).
   cbn [kid_name_ok]. unfold name_ok. apply andb_true_iff. split; assumption.
 Qed.
 
-Lemma forallb_kid_name kids : forallb (node_ok o true) kids = true -> forallb kid_name_ok kids = true.
+Lemma forallb_kid_name kids : forallb (node_ok o) kids = true -> forallb kid_name_ok kids = true.
 Proof.
   induction kids as [|k t IH]; [reflexivity|]. cbn [forallb]. intros H.
   apply andb_true_iff in H. destruct H as [H1 H2]. rewrite (node_ok_kid_name k H1). apply IH. exact H2.
 Qed.
 
-Lemma fresh_init p K a kids :
-  nodup_keys (map aname_full a) = true -> str_eqb K (attrK o) = false ->
-  at_most_one p kids = true -> fresh p K (init_na pf skip e a) kids.
+Lemma fresh_of_absent p K na kids :
+  lookup K na = None -> at_most_one p kids = true -> fresh p K na kids.
 Proof.
-  intros Hn HK H. unfold fresh. split.
-  - rewrite (init_na_spec a Hn). unfold has_key. destruct a; cbn [lookup]; [discriminate|].
-    rewrite HK. discriminate.
+  intros HK H. unfold fresh. split.
+  - unfold has_key. rewrite HK. discriminate.
   - unfold at_most_one in H. apply Nat.leb_le in H. exact H.
 Qed.
 End Enc.
